@@ -159,6 +159,7 @@ unsafe fn spawn_worker(run: fn(&str) -> Out) -> Option<Worker> {
     if pid < 0 { return None; }
     if pid == 0 {
         close(a[1]); close(b[0]);
+        close(2);            // abort messages of the implementation must not interleave with the result lines of the parent
         CHILD_FD.store(b[1], Relaxed);
         loop {
             let Some(h) = read_exact(a[0], 8) else { _exit(0) };
@@ -215,8 +216,10 @@ fn pset_short_commitment(b: &[u8]) -> bool {
     while i < b.len() {
         let Some(kl) = vi(b, &mut i) else { return false };
         if kl == 0 { map += 1; continue; }
-        let Some(key) = b.get(i..i + kl as usize) else { return false }; i += kl as usize;
+        let Some(kend) = (kl as usize).checked_add(i).filter(|_| kl < (1 << 32)) else { return false };
+        let Some(key) = b.get(i..kend) else { return false }; i = kend;
         let Some(vl) = vi(b, &mut i) else { return false };
+        if vl >= (1 << 32) { return false; }
         let val = b.get(i..(i + vl as usize).min(b.len())).unwrap_or(&[]);
         if map == 0 && key == [4u8] { nin = rd_varint(val).map(|x| x.0).unwrap_or(0); }
         if map == 0 && key == [5u8] { nout = rd_varint(val).map(|x| x.0).unwrap_or(0); }
